@@ -8,7 +8,7 @@
 
 //! The Gumbel distribution `Gumbel(μ, β)`.
 
-use crate::{Distribution, OpenClosed01};
+use crate::{Distribution, Open01};
 use core::fmt;
 use num_traits::Float;
 use rand::{Rng, RngExt};
@@ -46,7 +46,7 @@ use rand::{Rng, RngExt};
 pub struct Gumbel<F>
 where
     F: Float,
-    OpenClosed01: Distribution<F>,
+    Open01: Distribution<F>,
 {
     location: F,
     scale: F,
@@ -76,7 +76,7 @@ impl std::error::Error for Error {}
 impl<F> Gumbel<F>
 where
     F: Float,
-    OpenClosed01: Distribution<F>,
+    Open01: Distribution<F>,
 {
     /// Construct a new `Gumbel` distribution with given `location` and `scale`.
     pub fn new(location: F, scale: F) -> Result<Gumbel<F>, Error> {
@@ -93,10 +93,11 @@ where
 impl<F> Distribution<F> for Gumbel<F>
 where
     F: Float,
-    OpenClosed01: Distribution<F>,
+    Open01: Distribution<F>,
 {
     fn sample<R: Rng + ?Sized>(&self, rng: &mut R) -> F {
-        let x: F = rng.sample(OpenClosed01);
+        // `Open01`: both `x = 0` and `x = 1` would yield a non-finite sample
+        let x: F = rng.sample(Open01);
         self.location - self.scale * (-x.ln()).ln()
     }
 }
